@@ -25,6 +25,12 @@ CHECKS = {
  "C11": (MC, "vmc", "exhaustive streams x counts x laws (manual's equations evaluated in-language) plus the reference evaluator as third opinion",
    "Every stream of length <= 3 (thorough 4) over {1, 2, error} in three renderings x counts around 0 and the stream length plus 2^63, 2^70 and big-integer representations x 31 stream laws; reduce/foreach against the nested-pipe expansion generated for each concrete stream and seven (init, update, projection) triples; 21 generator laws over all argument triples (numbers, strings, arrays, null); every combinator also runs on the reference evaluator.",
    "trusted: each law is the manual's defining expansion evaluated by the same binary; error position and payload are captured as data", "DESIGN.md §2 C11"),
+ "C03": (MC, "vmc", "event-trace conformance: exhaustive streams x renderings x prefix consumers x iterator drop points against the reference evaluator",
+   "Every stream of length <= 3 (thorough 4) over {value, false, error, halt, input consumption, bomb, nothing}, each item behind a numbered effect marker, in four renderings (comma list, .[] over input, foreach source, filter argument) under 35 prefix consumers, with the library iterator pulled item by item and dropped after k items for every k; 24 infinite or effectful generators under 10 bounded consumers. The complete interleaved event trace (markers, input pulls, outputs, terminal event) must equal the reference evaluator's: nothing ordered after output k may run before it is delivered, nothing may be skipped. Divergence is caught by a watchdog.",
+   "trusted: reference evaluator; what runs before the first pull is attributed to output 1; fold-source effects vs init are unordered (manual) and excluded", "DESIGN.md §2 C03"),
+ "C12": (EX, "vmc", "exhaustive small inputs x in-language laws (manual's equations and verify blocks)",
+   "All arrays of length <= 3 (thorough 4) over 9 atoms (duplicates, ties, mixed types), all small objects with arbitrary keys in every insertion order, arrays of arrays, all strings of length <= 3/4 over {a, b, comma, space}; 10 key-filter laws x 11 key filters, 36 array laws, 18 object laws, 9 array-of-array laws, 18 string laws, each evaluated on every input.",
+   "trusted: the laws are written from docs/stdlib.dj and evaluated by the implementation itself (metamorphic); tie-breaks of min_by/max_by and key filters that raise errors are not demanded", "DESIGN.md §2 C12"),
 }
 PENDING = {}
 def main():
